@@ -208,6 +208,13 @@ def run(ctx):
             wscs.append({"id": len(wscs), "flavor": fl, "timeout_ms": T, "servers": [steps], "server_cap_ms": 100, "hang_ms": 40000, "T": T,
                          "ops": [{"op": "connect", "hello": hx(b"c20.test")},
                                  {"op": "send", "from": hx(b"a@x.org"), "to": [hx(b"b@y.org")], "msg_repeat": {"unit": hx(b"x" * 1022 + b"\r\n"), "count": 24 * 1024}}]})
+    for T in Ts[:1]:
+        for fl in ("sync", "tokio"):
+            steps = [step("none", REPLY["greeting"]), step("line", REPLY["ehlo"]), step("line", REPLY["mail"]), step("line", REPLY["rcpt0"]), step("line", REPLY["data"]),
+                     step("sleep", stall_ms=3000, close=True)]
+            wscs.append({"id": len(wscs), "flavor": fl, "timeout_ms": T, "servers": [steps], "server_cap_ms": 100, "hang_ms": 40000, "T": T, "via_transport": True,
+                         "ops": [{"op": "transport", "hello": hx(b"c20.test")},
+                                 {"op": "tsend", "from": hx(b"a@x.org"), "to": [hx(b"b@y.org")], "msg_repeat": {"unit": hx(b"x" * 1022 + b"\r\n"), "count": 24 * 1024}}]})
     wres = run_scenarios(wscs, threads=1)
     for sc, r in zip(wscs, wres):
         ctx.count(); ctx.cls("write-stall/" + sc["flavor"])
